@@ -632,13 +632,38 @@ func (e *Engine) multiQuery(asserts []Term, goals []Term) []bool {
 	return e.multiQueryRaw(asserts, goals)
 }
 
+// multiQueryRaw checks every goal against the hypotheses. A candidate is given up only on a refutation or after a second
+// attempt: a goal the solver did not get to before the process ran out of time (that depends on the load of the machine) is asked again with five times the budget. (An obligation that fails for want of an inferred invariant gets its own second
+// attempt in Discharge; the inference itself is not repeated.)
 func (e *Engine) multiQueryRaw(asserts []Term, goals []Term) []bool {
-	res := make([]bool, len(goals))
+	res, answered := e.multiQueryOnce(asserts, goals, 600, 5+2*len(goals))
+	var again []int
+	for i := range goals {
+		if !answered[i] {
+			again = append(again, i)
+		}
+	}
+	if len(again) > 0 {
+		gs := make([]Term, len(again))
+		for k, i := range again {
+			gs[k] = goals[i]
+		}
+		r2, _ := e.multiQueryOnce(asserts, gs, 3000, 10+6*len(gs))
+		for k, i := range again {
+			res[i] = r2[k]
+		}
+	}
+	return res
+}
+
+func (e *Engine) multiQueryOnce(asserts []Term, goals []Term, perGoalMs int, totalS int) (res []bool, answered []bool) {
+	res = make([]bool, len(goals))
+	answered = make([]bool, len(goals))
 	if len(goals) == 0 {
-		return res
+		return res, answered
 	}
 	var sb strings.Builder
-	sb.WriteString("(set-option :timeout 600)\n(set-logic ALL)\n")
+	sb.WriteString(fmt.Sprintf("(set-option :timeout %d)\n(set-logic ALL)\n", perGoalMs))
 	sb.WriteString(smtPrelude)
 	used := map[string]bool{}
 	for _, a := range asserts {
@@ -659,7 +684,7 @@ func (e *Engine) multiQueryRaw(asserts []Term, goals []Term) []bool {
 	queryCounter++
 	id := queryCounter
 	solverMu.Unlock()
-	file := filepath.Join(outDir, "smt", fmt.Sprintf("h%06d.smt2", id))
+	file := filepath.Join(smtDir(), fmt.Sprintf("h%06d.smt2", id))
 	os.MkdirAll(filepath.Dir(file), 0o755)
 	os.WriteFile(file, []byte(sb.String()), 0o644)
 	defer func() {
@@ -667,7 +692,7 @@ func (e *Engine) multiQueryRaw(asserts []Term, goals []Term) []bool {
 			os.Remove(file)
 		}
 	}()
-	ctx, cancel := context.WithTimeout(context.Background(), time.Duration(5+2*len(goals))*time.Second)
+	ctx, cancel := context.WithTimeout(context.Background(), time.Duration(totalS)*time.Second)
 	defer cancel()
 	cmd := exec.CommandContext(ctx, "z3-new", file)
 	var buf bytes.Buffer
@@ -691,8 +716,13 @@ func (e *Engine) multiQueryRaw(asserts []Term, goals []Term) []bool {
 		if i < len(lines) && lines[i] == "unsat" {
 			res[i] = true
 		}
+		// "unknown" within the solver's own budget counts as an answer (asking all of those again quintupled the inference
+		// time); a goal the solver never got to before the process budget ran out does not
+		if i < len(lines) {
+			answered[i] = true
+		}
 	}
-	return res
+	return res, answered
 }
 
 func (q *Query) declText(used map[string]bool) string {
